@@ -5,7 +5,7 @@
    centres are distinct frames; every label is in [0,k); every distance is the metric distance to
    the assigned centre; no centre is strictly closer; every centre frame has its own label at 0. *)
 From Coq Require Import List ZArith QArith.
-From EV Require Import Cluster ClusterCase ClusterBase ClusterInv ClusterPam ClusterKC ClusterTop ClusterExample.
+From EV Require Import Cluster ClusterCase ClusterBase ClusterInv ClusterPam ClusterKC ClusterTop ClusterExample Partition ClusterWarm.
 Import ListNotations.
 
 (* the invariant spelt out in the words of the property *)
@@ -61,6 +61,20 @@ Theorem c01_hybrid : forall D, (forall f, D f f == 0) -> (forall c f, c <> f -> 
   Inv D n (hybrid_cold D nclu cutoff n sweeps).
 Proof. exact hybrid_cold_inv. Qed.
 Print Assumptions c01_hybrid.
+
+(* warm starts: on ANY consistent state the per-label centre finder recovers exactly the centre list,
+   in order -- this is how kcenters(init_centers=frames) and kmedoids(assignments=, distances=) obtain
+   their centre indices, so "every reported centre is the frame at its reported index" survives *)
+Theorem c01_center_finder_recovers_centers : forall D, (forall f, D f f == 0) -> (forall c f, c <> f -> 0 < D c f) ->
+  forall n s, Inv D n s -> find_cluster_centers (snd s) = fst s.
+Proof. exact find_centers_of_consistent_state. Qed.
+Print Assumptions c01_center_finder_recovers_centers.
+
+Theorem c01_warm_start_center_indices : forall D, (forall f, D f f == 0) -> (forall c f, c <> f -> 0 < D c f) ->
+  forall n cs, cs <> [] -> NoDup cs -> (forall c, In c cs -> (c < n)%nat) ->
+  find_cluster_centers (snd (nearest_state D cs n)) = cs.
+Proof. exact warm_start_center_indices. Qed.
+Print Assumptions c01_warm_start_center_indices.
 
 (* the distance matrix of a case meets the hypotheses whenever the executable check accepts it *)
 Theorem c01_checked_matrix_is_valid : forall m n, valid_matrix m n = true ->
